@@ -194,6 +194,27 @@ func opBattery(seed int64) []call {
 	}
 }
 
+// bigMulti: a multi-scalar call with more terms (11) than any plausible
+// fixed-size scratch, so that "oversized" paths of pooled buffers are taken.
+func bigMulti(constTime bool) call {
+	name := "VarTimeMultiScalarMult(11 terms)"
+	if constTime {
+		name = "MultiScalarMult(11 terms)"
+	}
+	return call{name, func() []byte {
+		var sc []*edwards25519.Scalar
+		var ps []*edwards25519.Point
+		for i := 0; i < 11; i++ {
+			sc = append(sc, []*edwards25519.Scalar{ka, kb, k1}[i%3])
+			ps = append(ps, []*edwards25519.Point{ptA, ptA2}[i%2])
+		}
+		if constTime {
+			return new(edwards25519.Point).MultiScalarMult(sc, ps).Bytes()
+		}
+		return new(edwards25519.Point).VarTimeMultiScalarMult(sc, ps).Bytes()
+	}}
+}
+
 func scenarios() []scenario {
 	sharedReads := func() []call {
 		return []call{
@@ -214,6 +235,7 @@ func scenarios() []scenario {
 		{"S6 different variable points per thread", [][]call{{vtd(ka, ptA, kb), vsm(k1, ptA)}, {vtd(kb, ptA2, ka), vsm(k2, ptA2)}}, false},
 		{"S7 multi-scalar routines on different points", [][]call{{msm(ka, ptA, kb, ptA2), vtmsm(kb, ptA, ka, ptA2)}, {vtmsm(ka, ptA2, kb, ptA), msm(kb, ptA2, ka, ptA)}, {sbm(k1)}}, true},
 		{"S8 every operation class on private values", [][]call{opBattery(1), opBattery(2), opBattery(3)}, true},
+		{"S9 a large multi-scalar call, then concurrent small ones", [][]call{{bigMulti(false), vtmsm(ka, ptA, kb, ptA2)}, {vtmsm(kb, ptA2, ka, ptA), msm(ka, ptA2, kb, ptA)}, {bigMulti(true), msm(kb, ptA, ka, ptA2), vtmsm(ka, ptA, ka, ptA)}}, true},
 	}
 }
 
@@ -266,6 +288,7 @@ func runSchedule(sc *scenario, prefix []int, expect []vsched.PointInfo, logEvent
 type seqRef struct {
 	outs    [][][]byte
 	counts  map[string][2]int
+	calls   []int
 	globals [32]byte
 }
 
@@ -283,9 +306,9 @@ func sequentialRef(sc *scenario) *seqRef {
 		core.InternalError("C18: the cold-state snapshot/restore is incomplete for this tree (scenario %q behaves differently on its second cold run); cannot explore schedules soundly", sc.name)
 	}
 	if r.exec.Deadlock || r.exec.Panicked() != nil || len(r.exec.Races) > 0 {
-		return &seqRef{outs: r.outs, counts: r.exec.Counts, globals: r.globals}
+		return &seqRef{outs: r.outs, counts: r.exec.Counts, calls: r.exec.Calls, globals: r.globals}
 	}
-	return &seqRef{outs: r.outs, counts: r.exec.Counts, globals: r.globals}
+	return &seqRef{outs: r.outs, counts: r.exec.Counts, calls: r.exec.Calls, globals: r.globals}
 }
 
 func modelOuts(sc *scenario) map[string][]byte {
@@ -318,6 +341,9 @@ func checkExecution(sc *scenario, seq *seqRef, r *result) string {
 	if len(e.Races) > 0 {
 		return "data race (happens-before): " + e.Races[0]
 	}
+	if len(e.Faults) > 0 {
+		return e.Faults[0]
+	}
 	for ti := range seq.outs {
 		for ci := range seq.outs[ti] {
 			if !bytes.Equal(seq.outs[ti][ci], r.outs[ti][ci]) {
@@ -340,6 +366,24 @@ func checkExecution(sc *scenario, seq *seqRef, r *result) string {
 			return fmt.Sprintf("%s was written %d times, %d times in the sequential execution (constructed more than once?)", n, e.Counts[n][1], seq.counts[n][1])
 		}
 	}
+	// per-function execution counts: the same calls on the same arguments do
+	// the same work under every schedule unless something is constructed
+	// twice (or skipped) because of the interleaving
+	n := len(seq.calls)
+	if len(e.Calls) > n {
+		n = len(e.Calls)
+	}
+	at := func(a []int, i int) int {
+		if i < len(a) {
+			return a[i]
+		}
+		return 0
+	}
+	for i := 0; i < n; i++ {
+		if at(e.Calls, i) != at(seq.calls, i) {
+			return fmt.Sprintf("function %s ran %d times, %d times in the sequential execution of the same calls: work was duplicated or skipped under this schedule (tables constructed more than once?)", funcName(i), at(e.Calls, i), at(seq.calls, i))
+		}
+	}
 	// The final package state is NOT required to equal the sequential one: a
 	// correctly synchronised cache may legitimately end up holding whatever
 	// was used last. It is recorded for the evidence only.
@@ -350,6 +394,25 @@ func checkExecution(sc *scenario, seq *seqRef, r *result) string {
 }
 
 var stateDiffers int64
+
+var funcNames []string
+
+func funcName(i int) string {
+	if funcNames == nil {
+		funcNames = []string{}
+		if b, err := os.ReadFile(os.Getenv("VERIF_INSTR_REPORT")); err == nil {
+			var r struct {
+				Functions []string `json:"functions"`
+			}
+			json.Unmarshal(b, &r)
+			funcNames = r.Functions
+		}
+	}
+	if i < len(funcNames) {
+		return funcNames[i]
+	}
+	return fmt.Sprintf("#%d", i)
+}
 
 func preemptions(points []vsched.PointInfo, choices []int, upto int) int {
 	n := 0
@@ -533,7 +596,7 @@ func racePass(procs, goroutines int) *core.Fail {
 }
 
 func runC18(ctx *core.Ctx) {
-	ctx.Rule("stateless depth-first exploration of all schedules, up to a preemption bound, of 8 closed concurrent harnesses (2-3 threads, 1-4 calls each, all starting from a cold process image restored from a generated snapshot of every package-level variable) over the real library, instrumented at check time: sync/sync.atomic replaced by a shim whose operations are scheduling points and happens-before edges, plus a scheduling point and vector-clock race check before every statement that mentions a mutable package-level variable (classification recomputed from the tree). Oracle on every complete schedule: results equal the sequential ones (and the math/big model), no happens-before race, no deadlock, per-variable write counts equal the sequential execution's (constructed exactly once). states = scheduling points visited, transitions = thread steps executed, schedules = complete executions")
+	ctx.Rule("stateless depth-first exploration of all schedules, up to a preemption bound, of 9 closed concurrent harnesses (2-3 threads, 1-4 calls each, all starting from a cold process image restored from a generated snapshot of every package-level variable) over the real library, instrumented at check time: sync/sync.atomic replaced by a shim whose operations are scheduling points and happens-before edges, plus a scheduling point and vector-clock race check before every statement that mentions a mutable package-level variable (classification recomputed from the tree). Oracle on every complete schedule: results equal the sequential ones (and the math/big model), no happens-before race, no deadlock, per-variable write counts equal the sequential execution's (constructed exactly once). states = scheduling points visited, transitions = thread steps executed, schedules = complete executions")
 	ctx.Assume("scheduling points at synchronisation operations and at mentions of mutable package-level variables suffice (accesses through escaped pointers are covered by the value oracle and the sampled -race pass)",
 		"2-3 threads; more threads add no new kind of interaction for a once-only table (argument, not enumeration)",
 		"the Go memory model is approximated by sequential consistency plus vector-clock happens-before")
